@@ -877,9 +877,7 @@ func (p *Parser) parseIfStmt() *ast.IfStmt {
 		return nil
 	}
 
-	p.nextToken() // skip ")"
-
-	stmt.Consequence = p.parseBlockStmt()
+	stmt.Consequence = p.parseBody()
 
 	for p.peekTokenIs(token.ELSE_IF) {
 		alt := p.parseElseIfStmt()
@@ -920,20 +918,22 @@ func (p *Parser) parseElseIfStmt() *ast.ElseIfStmt {
 		return nil
 	}
 
-	p.nextToken() // skip ")"
+	tok := p.curToken // ")"
+	if !p.peekTokenIs(token.ELSE, token.ELSE_IF, token.END) {
+		tok = p.peekToken
+	}
 
 	return &ast.ElseIfStmt{
-		Token:       p.curToken,
+		Token:       tok,
 		Condition:   condition,
-		Consequence: p.parseBlockStmt(),
+		Consequence: p.parseBody(),
 	}
 }
 
 func (p *Parser) parseAlternativeBlock() *ast.BlockStmt {
 	p.nextToken() // move to "@else"
-	p.nextToken() // skip "@else"
 
-	alt := p.parseBlockStmt()
+	alt := p.parseBody()
 
 	if p.peekTokenIs(token.ELSE_IF) {
 		p.newError(p.peekToken.ErrorLine(), fail.ErrElseifCannotFollowElse)
@@ -978,13 +978,11 @@ func (p *Parser) parseForStmt() *ast.ForStmt {
 		return nil
 	}
 
-	p.nextToken() // skip ")"
-
-	stmt.Block = p.parseBlockStmt()
+	stmt.Block = p.parseBody()
 
 	if p.peekTokenIs(token.ELSE) {
-		p.nextToken() // skip "@else"
-		stmt.Alternative = p.parseBlockStmt()
+		p.nextToken() // move to "@else"
+		stmt.Alternative = p.parseBody()
 	}
 
 	if !p.expectPeek(token.END) { // move to "@end"
@@ -1020,13 +1018,11 @@ func (p *Parser) parseEachStmt() *ast.EachStmt {
 		return nil
 	}
 
-	p.nextToken() // skip ")"
-
-	stmt.Block = p.parseBlockStmt()
+	stmt.Block = p.parseBody()
 
 	if p.peekTokenIs(token.ELSE) {
-		p.nextToken() // skip "@else"
-		stmt.Alternative = p.parseBlockStmt()
+		p.nextToken() // move to "@else"
+		stmt.Alternative = p.parseBody()
 	}
 
 	if !p.expectPeek(token.END) { // move to "@end"
@@ -1034,6 +1030,19 @@ func (p *Parser) parseEachStmt() *ast.EachStmt {
 	}
 
 	return stmt
+}
+
+// parseBody parses the block that follows the current token. When a closing
+// directive follows directly the block is empty and the current token is kept,
+// so that the caller finds "@elseif", "@else" or "@end" as the next token.
+func (p *Parser) parseBody() *ast.BlockStmt {
+	if p.peekTokenIs(token.ELSE, token.ELSE_IF, token.END) {
+		return &ast.BlockStmt{Token: p.peekToken}
+	}
+
+	p.nextToken() // move to the first token of the block
+
+	return p.parseBlockStmt()
 }
 
 func (p *Parser) parseBlockStmt() *ast.BlockStmt {
